@@ -286,6 +286,10 @@ class Thm:
         A[s] |- B[s]  where s is substitution on terms
 
         """
+        # Term.subst puts the given terms under the binders of the sequent as they
+        # are: a loose bound variable would be captured.
+        if any(t.is_open() for t in list(inst.values()) + list(inst.var_inst.values())):
+            raise InvalidDerivationException("substitution: instantiation by an open term")
         try:
             # The instantiation of type variables is determined by the types
             # of the schematic variables of the whole sequent. Determine it
